@@ -2,6 +2,77 @@
 use std::marker::PhantomData;
 verus! {
 
+// ---------------------------------------------------------------------------------------------
+// C13 vocabulary: the item-wise expansion of an op, written from the property text
+// ---------------------------------------------------------------------------------------------
+/// One change of an item-wise expansion: its tag, the indices it carries and where its value is found
+/// (`side_is_old`: in the old / new sequence, at index `idx`).
+pub struct ChangeSpec {
+    pub tag: ChangeTag,
+    pub old_index: Option<usize>,
+    pub new_index: Option<usize>,
+    pub side_is_old: bool,
+    pub idx: usize,
+}
+
+/// `cnt` Equal changes carrying both indices (increasing by one), values from old[src], old[src+1], ..
+pub open spec fn run_eq(o: usize, n: usize, src: usize, cnt: nat) -> Seq<ChangeSpec> {
+    Seq::new(cnt, |k: int| ChangeSpec { tag: ChangeTag::Equal, old_index: Some((o + k) as usize), new_index: Some((n + k) as usize), side_is_old: true, idx: (src + k) as usize })
+}
+
+/// `cnt` Delete changes carrying only the old index, values from old[src], old[src+1], ..
+pub open spec fn run_del(o: usize, src: usize, cnt: nat) -> Seq<ChangeSpec> {
+    Seq::new(cnt, |k: int| ChangeSpec { tag: ChangeTag::Delete, old_index: Some((o + k) as usize), new_index: None, side_is_old: true, idx: (src + k) as usize })
+}
+
+/// `cnt` Insert changes carrying only the new index, values from new[src], new[src+1], ..
+pub open spec fn run_ins(n: usize, src: usize, cnt: nat) -> Seq<ChangeSpec> {
+    Seq::new(cnt, |k: int| ChangeSpec { tag: ChangeTag::Insert, old_index: None, new_index: Some((n + k) as usize), side_is_old: false, idx: (src + k) as usize })
+}
+
+/// C13: one change per consumed item, each carrying the value found at its index in the proper
+/// sequence; Replace: all its deletes followed by all its inserts.
+pub open spec fn expand(op: DiffOp) -> Seq<ChangeSpec> {
+    match op {
+        DiffOp::Equal { old_index, new_index, len } => run_eq(old_index, new_index, old_index, len as nat),
+        DiffOp::Delete { old_index, old_len, new_index } => run_del(old_index, old_index, old_len as nat),
+        DiffOp::Insert { old_index, new_index, new_len } => run_ins(new_index, new_index, new_len as nat),
+        DiffOp::Replace { old_index, old_len, new_index, new_len } =>
+            run_del(old_index, old_index, old_len as nat) + run_ins(new_index, new_index, new_len as nat),
+    }
+}
+
+/// C13: whole-diff iteration is the concatenation of the per-op expansions
+pub open spec fn expand_all(ops: Seq<DiffOp>) -> Seq<ChangeSpec>
+    decreases ops.len()
+{
+    if ops.len() == 0 { Seq::empty() } else { expand(ops[0]) + expand_all(ops.drop_first()) }
+}
+
+/// the yielded `Change` is the one described by `s`: same tag and indices, and its value is a clone of
+/// the item found at `s.idx` in the proper sequence
+pub open spec fn change_is<Old, New, T>(c: Change<T>, s: ChangeSpec, old: &Old, new: &New) -> bool
+  where Old: Index<usize, Output = T> + ?Sized, New: Index<usize, Output = T> + ?Sized, T: Clone
+{
+    c.sp_tag() == s.tag && c.sp_old_index() == s.old_index && c.sp_new_index() == s.new_index
+    && call_ensures(T::clone, (if s.side_is_old { item_at(old, s.idx) } else { item_at(new, s.idx) },), c.sp_value())
+}
+
+/// every op's ranges are within the sequences and do not overflow
+pub open spec fn ops_inb<Old: Index<usize> + ?Sized, New: Index<usize> + ?Sized>(old: &Old, new: &New, ops: Seq<DiffOp>) -> bool {
+    forall|i: int| 0 <= i < ops.len() ==> op_wf(#[trigger] ops[i]) && inb(old, op_old_range(ops[i])) && inb(new, op_new_range(ops[i]))
+}
+
+// `Iterator::next` of both iterators is verified as an inherent method (rewrite R9: the `impl Iterator for`
+// header and the `type Item` line are removed, `Self::Item` is substituted; the body is the text of /repo).
+// Reason: Verus does not let a trait-method implementation declare `requires`, and `next` indexes the
+// sequences, so it needs the iterator's well-formedness `wf()` (ranges in bounds, no index overflow) as a
+// precondition.  `#[verifier::type_invariant]` is not usable here: Verus demands the invariant's trait bounds
+// match the struct's (ChangesIter declares none, `inb` needs `Index<usize>`), checks it after every single
+// field assignment, and rejects `ref mut` borrows of fields (AllChangesIter::next).  `wf()` is established by
+// `new` and preserved by `next`; the fields are private and no other function of /repo writes them, so every
+// reachable iterator is well formed (encapsulation argument, not checked by Verus).
+
 //@@ item src/types.rs :: ^impl DiffOp rw=R0 only=fn\s+iter_changes
 impl DiffOp {
 
@@ -41,6 +112,8 @@ impl DiffOp {
     where
         Old: Index<usize, Output = T> + ?Sized,
         New: Index<usize, Output = T> + ?Sized,
+    /*@*/     requires op_wf(*self), inb(old, op_old_range(*self)), inb(new, op_new_range(*self)),
+    /*@*/     ensures res.wf(), res.rem() == expand(*self), res.src_old() == old, res.src_new() == new,
     {
         ChangesIter::new(old, new, *self)
     }
@@ -77,7 +150,34 @@ where
     Old: Index<usize, Output = T> + ?Sized,
     New: Index<usize, Output = T> + ?Sized,
 {
+    /*@*/ /// items left on the old / new side
+    /*@*/ pub closed spec fn n_old(&self) -> nat { if self.old_i <= self.old_range.end { (self.old_range.end - self.old_i) as nat } else { 0 } }
+    /*@*/ pub closed spec fn n_new(&self) -> nat { if self.new_i <= self.new_range.end { (self.new_range.end - self.new_i) as nat } else { 0 } }
+    /*@*/ pub closed spec fn src_old(&self) -> &'lookup Old { self.old }
+    /*@*/ pub closed spec fn src_new(&self) -> &'lookup New { self.new }
+    /*@*/
+    /*@*/ /// Well-formedness (established by `new`, preserved by `next`): the items still to be read are in
+    /*@*/ /// bounds and the reported indices cannot overflow.
+    /*@*/ pub closed spec fn wf(&self) -> bool {
+    /*@*/     let uses_old = self.tag != DiffTag::Insert;
+    /*@*/     let uses_new = self.tag == DiffTag::Insert || self.tag == DiffTag::Replace;
+    /*@*/     (uses_old ==> inb(self.old, Range { start: self.old_i, end: self.old_range.end }) && self.old_index + self.n_old() <= usize::MAX)
+    /*@*/     && (uses_new ==> inb(self.new, Range { start: self.new_i, end: self.new_range.end }) && self.new_index + self.n_new() <= usize::MAX)
+    /*@*/     && (self.tag == DiffTag::Equal ==> self.new_index + self.n_old() <= usize::MAX)
+    /*@*/ }
+    /*@*/
+    /*@*/ /// the changes still to be yielded, as a function of the iterator's state
+    /*@*/ pub closed spec fn rem(&self) -> Seq<ChangeSpec> {
+    /*@*/     match self.tag {
+    /*@*/         DiffTag::Equal => run_eq(self.old_index, self.new_index, self.old_i, self.n_old()),
+    /*@*/         DiffTag::Delete => run_del(self.old_index, self.old_i, self.n_old()),
+    /*@*/         DiffTag::Insert => run_ins(self.new_index, self.new_i, self.n_new()),
+    /*@*/         DiffTag::Replace => run_del(self.old_index, self.old_i, self.n_old()) + run_ins(self.new_index, self.new_i, self.n_new()),
+    /*@*/     }
+    /*@*/ }
     pub(crate) fn new(old: &'lookup Old, new: &'lookup New, op: DiffOp) -> (res: Self)
+    /*@*/     requires op_wf(op), inb(old, op_old_range(op)), inb(new, op_new_range(op)),
+    /*@*/     ensures res.wf(), res.rem() == expand(op), res.src_old() == old, res.src_new() == new,
     {
         let (tag, old_range, new_range) = op.as_tag_tuple();
         let old_index = old_range.start;
@@ -100,17 +200,25 @@ where
 }
 //@@ end
 
-//@@ item src/iter.rs :: ^impl<Old, New, T> Iterator for ChangesIter rw=R0
-impl<Old, New, T> Iterator for ChangesIter<'_, Old, New, T>
+//@@ item src/iter.rs :: ^impl<Old, New, T> Iterator for ChangesIter rw=R9,R0
+impl<Old, New, T> ChangesIter<'_, Old, New, T>
 where
     Old: Index<usize, Output = T> + ?Sized,
     New: Index<usize, Output = T> + ?Sized,
     T: Clone,
 {
-    type Item = Change<T>;
 
-    fn next(&mut self) -> (res: Option<Self::Item>)
+    fn next(&mut self) -> (res: Option<Change<T>>)
+    /*@*/     requires (*old(self)).wf(),
+    /*@*/     ensures (*final(self)).wf(),
+    /*@*/         (*final(self)).src_old() == (*old(self)).src_old(), (*final(self)).src_new() == (*old(self)).src_new(),
+    /*@*/         (*old(self)).rem().len() == 0 ==> res is None && *final(self) == *old(self),
+    /*@*/         (*old(self)).rem().len() > 0 ==> res is Some
+    /*@*/             && change_is(res.unwrap(), (*old(self)).rem()[0], (*old(self)).src_old(), (*old(self)).src_new())
+    /*@*/             && (*final(self)).rem() == (*old(self)).rem().drop_first(),
     {
+        /*@*/ broadcast use axiom_pure_index;
+        /*@*/ let ghost s0 = *self;
         match self.tag {
             DiffTag::Equal => {
                 if self.old_i < self.old_range.end {
@@ -202,12 +310,27 @@ where
     where
         T: 'data + ?Sized + PartialEq,
     {
+        /*@*/ pub closed spec fn src_old(&self) -> &'slf [&'data T] { self.old }
+        /*@*/ pub closed spec fn src_new(&self) -> &'slf [&'data T] { self.new }
+        /*@*/ /// Well-formedness (established by `new`, preserved by `next`): the ops still to be expanded are in
+        /*@*/ /// bounds of the two sequences, and the running per-op iterator reads from the same sequences.
+        /*@*/ pub closed spec fn wf(&self) -> bool {
+        /*@*/     ops_inb(self.old, self.new, self.ops@)
+        /*@*/     && (self.current_iter matches Some(it) ==> it.wf() && it.src_old() == self.old && it.src_new() == self.new)
+        /*@*/ }
+        /*@*/ /// the changes still to be yielded: the rest of the current op, then the expansion of every op left
+        /*@*/ pub closed spec fn rem_all(&self) -> Seq<ChangeSpec> {
+        /*@*/     (match self.current_iter { Some(it) => it.rem(), None => Seq::empty() }) + expand_all(self.ops@)
+        /*@*/ }
         pub(crate) fn new(
             old: &'slf [&'data T],
             new: &'slf [&'data T],
             ops: &'slf [DiffOp],
         ) -> (res: Self)
+        /*@*/     requires ops_inb(old, new, ops@),
+        /*@*/     ensures res.wf(), res.rem_all() == expand_all(ops@), res.src_old() == old, res.src_new() == new,
         {
+            /*@*/ proof { assert(Seq::<ChangeSpec>::empty() + expand_all(ops@) =~= expand_all(ops@)); }
             AllChangesIter {
                 old,
                 new,
@@ -218,17 +341,25 @@ where
     }
 //@@ end
 
-//@@ item src/iter.rs :: ^mod text :: ^impl<'slf, 'data, T> Iterator for AllChangesIter rw=R2t,R0,R8
-    impl<'slf, 'data, T> Iterator for AllChangesIter<'slf, 'data, T>
+//@@ item src/iter.rs :: ^mod text :: ^impl<'slf, 'data, T> Iterator for AllChangesIter rw=R9,R2t,R0,R8
+    impl<'slf, 'data, T> AllChangesIter<'slf, 'data, T>
     where
         T: PartialEq + 'data + ?Sized,
         'data: 'slf,
     {
-        type Item = Change<&'data T>;
 
-        fn next(&mut self) -> (res: Option<Self::Item>)
+        fn next(&mut self) -> (res: Option<Change<&'data T>>)
+        /*@*/     requires (*old(self)).wf(),
+        /*@*/     ensures (*final(self)).wf(),
+        /*@*/         (*final(self)).src_old() == (*old(self)).src_old(), (*final(self)).src_new() == (*old(self)).src_new(),
+        /*@*/         (*old(self)).rem_all().len() == 0 ==> res is None && (*final(self)).rem_all() == (*old(self)).rem_all(),
+        /*@*/         (*old(self)).rem_all().len() > 0 ==> res is Some
+        /*@*/             && change_is(res.unwrap(), (*old(self)).rem_all()[0], (*old(self)).src_old(), (*old(self)).src_new())
+        /*@*/             && (*final(self)).rem_all() == (*old(self)).rem_all().drop_first(),
         {
+            /*@*/ let ghost s0 = *self;
             loop
+            /*@*/     invariant self.wf(), self.old == s0.old, self.new == s0.new, self.rem_all() == s0.rem_all(),
             /*@*/     decreases self.ops.len(),
             {
                 if let Some(ref mut iter) = self.current_iter {
